@@ -47,11 +47,13 @@ def gen_program(r, idx):
     kwdef = [r.random() < 0.5 for _ in range(nkw)]
     varkw = r.random() < 0.35
     kind = r.choice(['func', 'func', 'wrapped', 'method', 'unbound', 'callable', 'partial', 'partial', 'partial_method'])
+    noself = False
     if r.random() < 0.06:        # the fully variadic signature `(*args, **kw)`: nothing is named, the key is tail + keyword items only
         npos, ndef, varargs, nkw, kwdef, varkw = 0, 0, True, 0, [], True
+        noself = r.random() < 0.5    # methods / __call__ written `def m(*args, **kw)`: the instance arrives inside *args
     defaults = [r.choice(POOL) for _ in range(ndef)]
     kwdefaults = [r.choice(POOL) for _ in range(nkw)]
-    return dict(npos=npos, ndef=ndef, varargs=varargs, nkw=nkw, kwdef=kwdef, varkw=varkw, kind=kind,
+    return dict(noself=noself, npos=npos, ndef=ndef, varargs=varargs, nkw=nkw, kwdef=kwdef, varkw=varkw, kind=kind,
                 defaults=defaults, kwdefaults=kwdefaults,
                 nposonly=r.choice([0, 0, 0, 0, 1, 2]),     # leading positional-only parameters (`def f(x, y, /, z)`), capped at npos
                 args_attr=r.random() < 0.3,      # a callable instance with an attribute `args` of its own (it is not a functools.partial)
@@ -90,7 +92,8 @@ def build_callable(prog):
     ns['_calls'] = CALLS
     # the binding oracle: a twin with the same parameter list that returns what CPython bound (inspect.Signature.bind wrongly
     # rejects a keyword that shares the name of a positional-only parameter and belongs in **kw)
-    own = params if kind in ('func', 'partial', 'wrapped') else ['self'] + params
+    selfp = [] if (prog.get('noself') and kind in ('method', 'callable', 'partial_method')) else ['self']
+    own = params if kind in ('func', 'partial', 'wrapped') else selfp + params
     exec('def probe(%s): return dict(locals())\n' % ', '.join(own), ns)
     if kind in ('func', 'partial', 'wrapped'):
         src = 'def target(%s):\n    _calls.append(1); return 0\n' % ', '.join(params)
@@ -105,7 +108,7 @@ def build_callable(prog):
             src += '# target = functools.wraps(inner)(target)   with   def inner(only)\n'
     else:
         meth = '__call__' if kind == 'callable' else 'target'
-        src = 'class C(object):\n    def %s(%s):\n        _calls.append(1); return 0\n' % (meth, ', '.join(['self'] + params))
+        src = 'class C(object):\n    def %s(%s):\n        _calls.append(1); return 0\n' % (meth, ', '.join(selfp + params))
         if prog.get('falsy'): src += '    def __len__(self): return 0\n'
         exec(src, ns)
         getattr(ns['C'], meth).__probe__ = ns['probe']
